@@ -1140,6 +1140,15 @@ func (e *Engine) evalCall(y *ECall, env *evalEnv) Val {
 				return Val{S: e.heap(env.logState(), sn, "Int"), T: specInt}
 			}
 		}
+	case "retsum":
+		// retsum(F, i): the sum of the i-th (numeric) results over all calls of F so far
+		if len(y.Args) == 2 {
+			f, ok1 := y.Args[0].(*EIdent)
+			n, ok2 := y.Args[1].(*ELit)
+			if ok1 && ok2 {
+				return Val{S: e.heap(env.logState(), "callsum_"+mangle(f.Name)+"_ret"+n.Val, "Int"), T: specInt}
+			}
+		}
 	case "arg":
 		// arg(F, p): the value passed for parameter p in the last call of layer function F
 		if len(y.Args) == 2 {
